@@ -12,7 +12,7 @@ RULE = ("seven prior families x random parameters x values (interior, within 1e-
 ASSUMPTIONS = ["scipy.stats log-densities agree with the hand-written closed forms of vlib/ref.py (asserted at child start)",
                "values are kept where the density does not underflow"]
 RUN_OPTS = {"batch_size": 40, "timeout_per_case": 20.0}
-MINIMA = {"*": {"evaluations": 3000, "contract_evaluations": 3000, "outside_support": 500, "cost_function_calls": 100, "min_cell": 50}}
+MINIMA = {"*": {"evaluations": 3000, "contract_evaluations": 3000, "outside_support": 500, "cost_function_calls": 100, "min_cell": 50, "boundary_exponent_zero": 10}}
 
 FAMILIES = ["uniform", "gaussian", "exponential", "gamma", "beta", "log-uniform", "log-gaussian"]
 
@@ -27,9 +27,11 @@ def rand_prior(rnd, fam):
         return [fam, gen.nice(rnd, 0.01, 50)]
     if fam == "gamma":
         a = float(rnd.randint(1, 6)) if rnd.random() < 0.6 else float("%.3g" % rnd.uniform(0.5, 6))
+        if rnd.random() < 0.12:
+            a = rnd.choice([1, 1.0])       # exactly exponential: the density at 0 is the rate
         return [fam, a, gen.nice(rnd, 0.05, 20)]
     if fam == "beta":
-        f = lambda: float(rnd.randint(1, 8)) if rnd.random() < 0.6 else float("%.3g" % rnd.uniform(0.5, 8))
+        f = lambda: (float(rnd.randint(1, 8)) if rnd.random() < 0.6 else float("%.3g" % rnd.uniform(0.5, 8))) if rnd.random() > 0.1 else rnd.choice([1, 1.0])
         return [fam, f(), f()]
     if fam == "log-uniform":
         lo = gen.nice(rnd, 1e-3, 10)
@@ -86,13 +88,15 @@ def values_for(rnd, prior):
         out.append((lo - max(eps, abs(lo) * 4e-16 * 4), "below"))
         out.append((lo - scale * rnd.uniform(0.01, 3), "below"))
         out.append((lo - abs(rnd.uniform(0.5, 40)), "below"))
-        if fam in ("uniform", "log-uniform", "exponential"):
-            out.append((lo, "boundary"))
+        if fam in ("uniform", "log-uniform", "exponential") or (fam in ("gamma", "beta") and prior[1] == 1):
+            out.append((lo, "boundary"))       # closed support; gamma/beta: exponent exactly 0 at this end, density finite and positive
+            if fam in ("gamma", "beta"):
+                out.append((rnd.choice([0, 0.0, -0.0]), "boundary"))
     if math.isfinite(hi):
         out.append((hi - max(eps, abs(hi) * 4e-16 * 4), "inside-near"))
         out.append((hi + max(eps, abs(hi) * 4e-16 * 4), "above"))
         out.append((hi + scale * rnd.uniform(0.01, 3), "above"))
-        if fam in ("uniform", "log-uniform"):
+        if fam in ("uniform", "log-uniform") or (fam == "beta" and prior[2] == 1):
             out.append((hi, "boundary"))
     if lo == -math.inf:
         out.append((prior[1] - prior[2] * rnd.uniform(1, 28), "inside"))
@@ -135,7 +139,7 @@ def child_setup():
         for _ in range(40):
             pr = rand_prior(rnd, fam)
             for v, cl in values_for(rnd, pr):
-                if cl in ("boundary",):
+                if cl in ("boundary",) and fam not in ("gamma", "beta"):
                     continue
                 mine = ref.logpdf(pr, v)
                 if fam == "uniform":
@@ -235,6 +239,8 @@ def run_case(case):
             check("check_prior", got, fin, exp, fam, ctx)
             if not (case["positive"] and v < 0):
                 check(fam + "_prior", meth("p0", v), fin, exp, fam, ctx)
+            if cl == "boundary" and fam in ("gamma", "beta"):
+                C["boundary_exponent_zero"] += 1
             cells[(fam, "inside" if cl.startswith("inside") or cl == "boundary" else ("below" if cl in ("below", "negative") else "above"))] += 1
             if cl != "inside":
                 nontrivial = True
@@ -245,6 +251,13 @@ def run_case(case):
             for v, cl in case["values"]:
                 fin, exp = expected_vector([pr], [case["positive"]], [v])
                 if fin:
+                    if cl in ("boundary", "inside-near") and v >= 0 and exp > -650:
+                        # a point of the (closed) support is not rejected: the posterior is a number, not -inf / nan
+                        c = inf.cost_function(np.array([v]))
+                        C["cost_function_calls_in_support_edge"] += 1
+                        if not math.isfinite(c):
+                            viol.append({"key": "C16/%s:posterior-rejects-support-point" % fam,
+                                         "msg": "cost_function(%r) = %r although the log-prior there is %r (prior %r, %s)" % (v, c, exp, prl, cl)})
                     continue
                 c = inf.cost_function(np.array([v]))
                 C["cost_function_calls"] += 1
